@@ -202,6 +202,10 @@ var skels = []skel{
 		return Query("T", &Op{K: "summarize", Cols: []Col{{Name: idp("c"), X: Call("count")}}, HasBy: true, By: []Col{{Name: &id, X: Name("k")}}})
 	}},
 	{"as", "id", func(_ *E, id Ident) *Program { return Query("T", &Op{K: "as", Name: id}, &Op{K: "count"}) }},
+	{"as-last", "id", func(_ *E, id Ident) *Program {
+		return Query("T", &Op{K: "where", X: Bin("==", Name("a"), Num("1"))}, &Op{K: "as", Name: id})
+	}},
+	{"as-only", "id", func(_ *E, id Ident) *Program { return Query("T", &Op{K: "as", Name: id}) }},
 	{"render-type", "id", func(_ *E, id Ident) *Program { return Query("T", &Op{K: "render", Name: id}) }},
 	{"render-prop-name", "id", func(_ *E, id Ident) *Program {
 		return Query("T", &Op{K: "render", Name: Ident{Name: "pie"}, With: true, Props: []Prop{{Name: id, Val: Num("1")}}})
@@ -387,6 +391,14 @@ func generate(w *mon.W) {
 			for _, f := range []string{"zz9", "K1", "_u", "x1", "Title", "k3x", "b", "k"} {
 				c := &Case{Skel: sk.name, Kind: "id", Fill: f, Bare: true}
 				w.Do(fmt.Sprintf("%s|bare|%s", sk.name, f), func(r *mon.R) { Check(c, r) })
+			}
+			// render names written without back quotes that are also bound by lets:
+			// a render name is data whatever else goes by that name
+			if strings.HasPrefix(sk.name, "render-") {
+				for _, f := range []string{"zz9", "n", "k", "x1", "Title"} {
+					c := &Case{Skel: sk.name, Kind: "id", Fill: f, Bound: true, Bare: true}
+					w.Do(fmt.Sprintf("%s|barebound|%s", sk.name, f), func(r *mon.R) { Check(c, r) })
+				}
 			}
 			// plain names that are also bound by lets written before the query
 			for _, f := range []string{"a", "t", "n", "T", "k", "x1", "_u", "count", "title", "null", "true", "stacked"} {
@@ -710,7 +722,8 @@ func Check(c *Case, r *mon.R) {
 		}
 	}
 	if decodedOK == 0 && c.Fill != refFill {
-		same := false
+		// a result name that nothing reads afterwards has no place in the output
+		same := c.Skel == "as-last" || c.Skel == "as-only"
 		if wantNum != nil {
 			if t := Tokens(refFill); len(t) == 1 && t[0].Num.Equal(wantNum) {
 				same = true
